@@ -51,7 +51,7 @@ def _one_run(prop, run_seed):
         signal.setitimer(signal.ITIMER_REAL, 0)
 
 
-def chunk_main(pid, seed, lo, hi, sample_mod, conn, want_samples):
+def chunk_main(pid, seed, lo, hi, sample_mod, conn, want_samples, all_digests=False):
     """Runs indices [lo, hi) in this (freshly forked) process."""
     out = {
         "lo": lo,
@@ -110,7 +110,7 @@ def chunk_main(pid, seed, lo, hi, sample_mod, conn, want_samples):
                 )
             if res.nontrivial:
                 out["nontrivial"].add(int(res.digest[:16], 16))
-            if i - lo < 2:
+            if i - lo < 2 or all_digests:
                 out["digests"][str(i)] = res.digest
             if want_samples and len(out["samples"]) < want_samples:
                 out["samples"].append(
@@ -146,7 +146,7 @@ def chunk_main(pid, seed, lo, hi, sample_mod, conn, want_samples):
         conn.close()
 
 
-def run_parallel(pid, seed, nruns, workers, sample_mod, wall_cap_s, chunk=None):
+def run_parallel(pid, seed, nruns, workers, sample_mod, wall_cap_s, chunk=None, all_digests=False):
     """-> merged dict.  Results are merged in index order."""
     if chunk is None:
         chunk = max(1, min(500, nruns // (workers * 4) or 1))
@@ -162,7 +162,7 @@ def run_parallel(pid, seed, nruns, workers, sample_mod, wall_cap_s, chunk=None):
             parent, child = MP.Pipe(duplex=False)
             p = MP.Process(
                 target=chunk_main,
-                args=(pid, seed, lo, hi, sample_mod, child, 3 if lo == 0 else 0),
+                args=(pid, seed, lo, hi, sample_mod, child, 3 if lo == 0 else 0, all_digests),
             )
             p.start()
             child.close()
@@ -623,7 +623,7 @@ def write_evidence(prop, tier, seed, merged, wall, n_viol, n_known, reported, ha
         "wall_s": round(wall, 2),
         "violations": n_viol,
     }
-    d = os.path.join(VERIF, "evidence")
+    d = os.environ.get("VERIF_EVIDENCE_DIR") or os.path.join(VERIF, "evidence")
     os.makedirs(d, exist_ok=True)
     tmp = os.path.join(d, f".{prop.id}.json.tmp")
     with open(tmp, "w") as f:
